@@ -86,6 +86,21 @@ def _walk_no_nested(fnode):
             todo.append(ch)
 
 
+def always_exits(body):
+    """syntactic: executing the block always ends in return/raise (so a loop with this body runs at
+    most one iteration)"""
+    if not body:
+        return False
+    last = body[-1]
+    if any(isinstance(n, ast.Continue) for b in body for n in ast.walk(b)):
+        return False
+    if isinstance(last, (ast.Return, ast.Raise)):
+        return True
+    if isinstance(last, ast.If):
+        return always_exits(last.body) and always_exits(last.orelse)
+    return False
+
+
 def assigned_names(nodes):
     out = set()
     for n in nodes:
@@ -347,8 +362,11 @@ class Interp:
                 return False
             return a.z == b.z
         if isinstance(a, SV) and isinstance(b, SV) and a.ty.sort() == b.ty.sort():
-            # identity of immutable values: model object identity as equality only for refs;
-            # for terms identity implies equality but not conversely -> unsupported
+            if a.z.eq(b.z):
+                return True
+            r = self.model.value_identity(self, a, b)
+            if r is not NotImplemented:
+                return r
             raise Unsupported("'is' on non-reference symbolic values")
         if isinstance(a, ClassRef) and isinstance(b, ClassRef):
             return a.name == b.name
@@ -770,6 +788,7 @@ class Interp:
             else:
                 e = z3.Const(p.fresh_name("e"), es)
                 p.assume(z3.ForAll([e], done[e] == it.member(e)))
+                p.assume(done == z3.Lambda([e], it.member(e)))
         else:
             more = self.test(self.eval(s.test, env))
         if more:
@@ -864,6 +883,11 @@ class Interp:
             if self.interference is not None and any(isinstance(n, (ast.Yield, ast.YieldFrom))
                                                      for b in s.body for n in ast.walk(b)):
                 self.interference.after_yield(self, self.callctx, s)
+            if always_exits(s.body):
+                # every iteration leaves the loop (return/raise): the loop falls through only when
+                # there was no element at all
+                e = z3.Const(p.fresh_name("e"), it.elem_ty.sort())
+                p.assume(z3.ForAll([e], z3.Not(it.member(e))))
             self.exec_block(s.orelse, env)
 
     def concrete_items(self, v):
